@@ -2332,3 +2332,124 @@ func checkSampleCacheKey(ctx *Ctx, r *Report) {
 	r.check("K19", "dcSdf.evaluateCached|cache-keyed-by-the-sample-position", fn.Pos(), bad == "", "every lookup and update uses the position "+want+" itself as the key;"+bad)
 	r.floor("K19", 1)
 }
+
+// ---------------------------------------------------------------- K20: defaults settle at once
+
+func init() {
+	prev := registry["C19"].run
+	registry["C19"] = propDef{run: func(ctx *Ctx, r *Report, tier string) {
+		prev(ctx, r, tier)
+		checkRenderSettingsIdempotent(ctx, r)
+	}}
+}
+
+// checkRenderSettingsIdempotent (K20): a render that fills in a default for a setting left at
+// zero stores the default in the renderer; the next render of the same renderer object reads the
+// stored value. The first and the later renders of one model are the same mesh only if the
+// first render already worked with the value it stores: for every call the octree renderer's
+// Render makes with arguments read from the renderer's settings, the arguments computed from
+// the settings as found equal the arguments computed from the settings as left behind (case
+// split over the function's own tests of the settings; a default assigned to the field but read
+// from a stale local copy fails the zero case).
+func checkRenderSettingsIdempotent(ctx *Ctx, r *Report) {
+	fn := ctx.ssaFunc("render/dc", "(*DualContouringV1).Render")
+	key := "DualContouringV1.Render"
+	if fn == nil || len(fn.Params) == 0 {
+		r.undecided("K20", key, 0, "not found")
+		return
+	}
+	// every module function Render calls stays opaque: only their arguments matter here
+	var opaque []string
+	allInstrs(fn, func(_ *ssa.BasicBlock, ins ssa.Instruction) {
+		if c, ok := ins.(ssa.CallInstruction); ok {
+			if f := c.Common().StaticCallee(); f != nil && inModule(f) {
+				opaque = append(opaque, f.Name())
+			}
+		}
+	})
+	ev := newEval(ctx, opaque...)
+	_, st := ev.evalRoot(fn)
+	if ev.Exceeded {
+		r.undecided("K20", key, fn.Pos(), "evaluation budget exceeded")
+		return
+	}
+	recv := paramName(fn, 0)
+	final := map[string]*Term{}
+	for o, v := range st.mem {
+		if o.name == recv {
+			leafTerms("", v, final)
+		}
+	}
+	if len(final) == 0 {
+		r.undecided("K20", key, fn.Pos(), "the renderer's settings after the call are not in closed form")
+		return
+	}
+	subst := map[string]*Term{}
+	for f, t := range final {
+		subst[recv+f] = t
+	}
+	isSetting := func(a string) bool { return strings.HasPrefix(a, recv+".") }
+	n := 0
+	for _, e := range ev.Events {
+		for ai, av := range e.Args {
+			leaves := map[string]*Term{}
+			leafTerms("", av, leaves)
+			for lf, a := range leaves {
+				if a == nil || len(atomsMatching(a, isSetting)) == 0 {
+					continue
+				}
+				conds := condAtoms(a)
+				for _, t := range final {
+					conds = append(conds, condAtoms(t)...)
+				}
+				uniq := map[string]*Term{}
+				for _, c := range conds {
+					uniq[c.Key()] = c
+				}
+				var cs []*Term
+				for _, c := range uniq {
+					cs = append(cs, c)
+				}
+				sortTerms(cs)
+				if len(cs) > 8 {
+					continue
+				}
+				bad := ""
+				for m := 0; m < 1<<uint(len(cs)); m++ {
+					truth := map[string]bool{}
+					pin := map[string]*Term{}
+					for k, c := range cs {
+						v := m>>uint(k)&1 == 1
+						truth[c.Key()] = v
+						if v && c.Op == "cmp" && c.S == "==" && c.Args[0].Op == "a" && c.Args[1].Op == "c" {
+							pin[c.Args[0].S] = c.Args[1] // the setting is known in this case
+						}
+					}
+					before := substAtoms(assume(a, truth), pin)
+					after := substAtoms(assume(substAtoms(a, subst), truth), pin)
+					after = substAtoms(assume(after, truth), pin)
+					if before.Key() != after.Key() && !equalRat(before, after) && bad == "" {
+						bad = fmt.Sprintf(" in the case %s the call gets %s from the settings as found and %s from the settings it leaves", shortKey(describeTruth(cs, m), 120), shortKey(before.Key(), 60), shortKey(after.Key(), 60))
+					}
+				}
+				n++
+				r.check("K20", fmt.Sprintf("%s|%s-arg%d%s-same-on-the-next-render", key, e.Callee, ai, lf), e.Pos, bad == "",
+					"argument computed from the renderer's settings equals the one computed from the settings the render leaves behind;"+bad)
+			}
+		}
+	}
+	r.Counts["settings_arguments"] = n
+	r.floor("K20", 1)
+}
+
+func describeTruth(cs []*Term, m int) string {
+	var parts []string
+	for k, c := range cs {
+		if m>>uint(k)&1 == 1 {
+			parts = append(parts, c.Key())
+		} else {
+			parts = append(parts, "!"+c.Key())
+		}
+	}
+	return strings.Join(parts, " ∧ ")
+}
